@@ -1,2 +1,318 @@
-(* Properties/C07.v — property theorems only. (stub) *)
+(* Properties/C07.v — a failing stream is reported, never mistaken for a clean
+   end of data; failing writers.  Only statements; every proof is
+   [exact <lemma>] (Proofs/StreamProofs.v, StreamProofsC.v).
+
+   Readers.  A stream that delivers the first k bytes of w and then fails is
+   the pair (firstn k w, TErr) (DESIGN.md section 3: the readers consult the
+   terminal condition once, after the last delivered byte, and stop; whether
+   the io.Reader would fail once or forever is therefore not an input of the
+   model — that the implementation also stops, in both cases, is tested by
+   the correspondence run with an item cap).  For each format, w a well-formed
+   input (the writer output of in-domain records) and EVERY k (offsets beyond
+   the end included: the fault then arrives where EOF would have):
+
+     decode (firstn k w) TErr = map Rec (firstn j rs) ++ [ErrItem]   for some j <= |rs|
+
+   where rs are the records of the fault-free decode: only records identical
+   to leading records of the fault-free decode are delivered (never one built
+   from a truncated line), then exactly one error, which is the last item; the
+   result is a finite list, so the iteration ends.
+
+   Writers.  [Stream.limit_write k] is the io.Writer that accepts k bytes in
+   total; [write_to_<fmt> k r] runs the Write method (its list of Fprintf/Write
+   chunks) against it.  Write returns an error iff k < len(MarshalText), and
+   what reached the writer is always the first k bytes of MarshalText. *)
+From Coq Require Import String.
 From Bio Require Import Base.
+From Bio.Model Require Fasta Fastq Sam Bed Newick.
+From Bio.Model Require Import Stream.
+From Bio.Spec Require FastaSpec FastqSpec SamSpec BedSpec NewickSpec.
+From Bio.Proofs Require Import StreamProofs StreamProofsB StreamProofsC.
+Open Scope N_scope.
+
+(* ---- failing streams ------------------------------------------------------------ *)
+
+(* FASTA: the fault-free decode of [fasta_file rs] is [map Rec rs]
+   (C01_write_read_roundtrip).  The record in progress when the fault arrives
+   is dropped: also a record that was written completely, because only the
+   next '>' (or EOF) ends a record. *)
+Theorem C07_fault_prefix_fasta : forall rs k, Forall FastaSpec.fa_ok rs ->
+  exists j, (j <= length rs)%nat
+    /\ Fasta.decode (firstn k (fasta_file rs)) TErr = map Rec (firstn j rs) ++ [ErrItem].
+Proof. exact fault_prefix_fasta. Qed.
+Print Assumptions C07_fault_prefix_fasta.
+
+(* FASTQ: fault-free decode [map Rec rs] (C02_roundtrip).  The Scanner hands
+   out the truncated last line as a token; a cut inside the qualities gives
+   qualities shorter than the sequence, hence the length error — unless it
+   cuts exactly before the final LF, where the record is complete and equal. *)
+Theorem C07_fault_prefix_fastq : forall rs k, Forall FastqSpec.fq_ok rs ->
+  exists j, (j <= length rs)%nat
+    /\ Fastq.decode (firstn k (fastq_file rs)) TErr = map Rec (firstn j rs) ++ [ErrItem].
+Proof. exact fault_prefix_fastq. Qed.
+Print Assumptions C07_fault_prefix_fastq.
+
+(* one record: a fault anywhere inside it (or right after it) yields the error
+   alone, or the complete record and then the error; never anything else *)
+Theorem C07_fastq_one_record : forall r m, FastqSpec.fq_ok r ->
+  Fastq.decode (firstn m (Fastq.write r)) TErr = [ErrItem]
+  \/ Fastq.decode (firstn m (Fastq.write r)) TErr = [Rec r; ErrItem].
+Proof. exact fastq_partial. Qed.
+Print Assumptions C07_fastq_one_record.
+
+(* SAM (ReaderHeader): [es] is the fault-free decode of the file (header lines
+   and records, C03_file); ReadString returns the partial line together with
+   the error and the reader discards it. *)
+Theorem C07_fault_prefix_sam : forall o hs rs k,
+  Forall SamSpec.header_ok hs -> Forall (SamSpec.sam_ok o) rs ->
+  exists es j,
+    Sam.reader_header o (sam_file o hs rs) TEOF = map Rec es
+    /\ (j <= length es)%nat
+    /\ Sam.reader_header o (firstn k (sam_file o hs rs)) TErr = map Rec (firstn j es) ++ [ErrItem].
+Proof. exact fault_prefix_sam. Qed.
+Print Assumptions C07_fault_prefix_sam.
+
+(* SAM (Reader) *)
+Theorem C07_fault_prefix_sam_reader : forall o hs rs k,
+  Forall SamSpec.header_ok hs -> Forall (SamSpec.sam_ok o) rs ->
+  exists rs' j,
+    Sam.reader o (sam_file o hs rs) TEOF = map Rec rs'
+    /\ (j <= length rs')%nat
+    /\ Sam.reader o (firstn k (sam_file o hs rs)) TErr = map Rec (firstn j rs') ++ [ErrItem].
+Proof. exact fault_prefix_sam_reader. Qed.
+Print Assumptions C07_fault_prefix_sam_reader.
+
+(* BED: records sharing one N; fault-free decode
+   [map (fun b => Rec (first_n b)) bs] (C04_file_roundtrip) *)
+Theorem C07_fault_prefix_bed : forall n bs w k,
+  Forall (fun b => BedSpec.bed_ok b /\ Bed.b_n b = n) bs -> bed_file bs = Ok w ->
+  exists j, (j <= length bs)%nat
+    /\ Bed.decode (firstn k w) TErr
+       = map (fun b => Rec (BedSpec.first_n b)) (firstn j bs) ++ [ErrItem].
+Proof. exact fault_prefix_bed. Qed.
+Print Assumptions C07_fault_prefix_bed.
+
+(* Newick: a file of written trees, one per line; fault-free decode
+   [map (fun t => Rec (norm t)) ts] (C05_roundtrip_seq).  Any names, LF inside
+   quoted names included. *)
+Theorem C07_fault_prefix_newick : forall o ts k, Forall (NewickSpec.floats_ok o) ts ->
+  exists j, (j <= length ts)%nat
+    /\ Newick.decode o (firstn k (newick_file o ts)) TErr
+       = Ok (map (fun t => Rec (NewickSpec.norm t)) (firstn j ts) ++ [ErrItem]).
+Proof. exact fault_prefix_newick. Qed.
+Print Assumptions C07_fault_prefix_newick.
+
+(* For EVERY input c ++ d, well-formed or not: on a stream that fails after c,
+   read() reports an error, or returns a tree completed inside c — the very
+   tree (and the very rest) it returns on the whole input, however that ends.
+   A tree is never built from a truncated token. *)
+Theorem C07_newick_read_prefix : forall o tm c d,
+  Newick.read_tree o c TErr = Newick.RErr
+  \/ exists t r, Newick.read_tree o c TErr = Newick.ROk t r
+                 /\ Newick.read_tree o (c ++ d) tm = Newick.ROk t (r ++ d).
+Proof. exact read_tree_prefix. Qed.
+Print Assumptions C07_newick_read_prefix.
+
+(* ---- failing writers --------------------------------------------------------------- *)
+
+(* the generic fact: a writer that accepts k bytes receives the first k bytes
+   of the concatenated chunks; the Write method succeeds iff all of them fit *)
+Theorem C07_limit_write : forall cs k,
+  snd (limit_write k cs) = firstn k (concat cs)
+  /\ ((length (concat cs) <= k)%nat -> fst (limit_write k cs) = Ok tt)
+  /\ ((k < length (concat cs))%nat -> fst (limit_write k cs) = Err).
+Proof. exact limit_write_spec. Qed.
+Print Assumptions C07_limit_write.
+
+Theorem C07_write_fault_fasta : forall k r m, Fasta.marshal_text r = Ok m ->
+  (k < length m)%nat -> fst (write_to_fasta k r) = Err.
+Proof. exact write_fault_fasta. Qed.
+Print Assumptions C07_write_fault_fasta.
+
+Theorem C07_write_ok_fasta : forall k r m, Fasta.marshal_text r = Ok m ->
+  (length m <= k)%nat -> fst (write_to_fasta k r) = Ok tt.
+Proof. exact write_ok_fasta. Qed.
+Print Assumptions C07_write_ok_fasta.
+
+Theorem C07_write_fault_fastq : forall k r m, Fastq.marshal_text r = Ok m ->
+  (k < length m)%nat -> fst (write_to_fastq k r) = Err.
+Proof. exact write_fault_fastq. Qed.
+Print Assumptions C07_write_fault_fastq.
+
+Theorem C07_write_ok_fastq : forall k r m, Fastq.marshal_text r = Ok m ->
+  (length m <= k)%nat -> fst (write_to_fastq k r) = Ok tt.
+Proof. exact write_ok_fastq. Qed.
+Print Assumptions C07_write_ok_fastq.
+
+Theorem C07_write_fault_sam : forall o k r m, Sam.marshal_text o r = Ok m ->
+  (k < length m)%nat -> fst (write_to_sam o k r) = Err.
+Proof. exact write_fault_sam. Qed.
+Print Assumptions C07_write_fault_sam.
+
+Theorem C07_write_ok_sam : forall o k r m, Sam.marshal_text o r = Ok m ->
+  (length m <= k)%nat -> fst (write_to_sam o k r) = Ok tt.
+Proof. exact write_ok_sam. Qed.
+Print Assumptions C07_write_ok_sam.
+
+(* BED: [Bed.write] is MarshalText; it is [Ok] exactly for N in 3..12 *)
+Theorem C07_write_fault_bed : forall k b m, Bed.write b = Ok m ->
+  (k < length m)%nat -> fst (write_to_bed k b) = Err.
+Proof. exact write_fault_bed. Qed.
+Print Assumptions C07_write_fault_bed.
+
+Theorem C07_write_ok_bed : forall k b m, Bed.write b = Ok m ->
+  (length m <= k)%nat -> fst (write_to_bed k b) = Ok tt.
+Proof. exact write_ok_bed. Qed.
+Print Assumptions C07_write_ok_bed.
+
+Theorem C07_write_in_range_bed : forall b, (3 <= Bed.b_n b <= 12)%Z -> exists m, Bed.write b = Ok m.
+Proof. exact write_in_range_bed. Qed.
+Print Assumptions C07_write_in_range_bed.
+
+(* N outside 3..12: an error whatever the writer accepts, and nothing is written *)
+Theorem C07_write_refused_bed : forall k b, (Bed.b_n b < 3 \/ Bed.b_n b > 12)%Z ->
+  write_to_bed k b = (Err, []).
+Proof. exact write_refused_bed. Qed.
+Print Assumptions C07_write_refused_bed.
+
+(* Newick: MarshalText never fails; Write hands its bytes over in one call *)
+Theorem C07_write_fault_newick : forall o k t,
+  (k < length (Newick.marshal o t))%nat -> fst (write_to_newick o k t) = Err.
+Proof. exact write_fault_newick. Qed.
+Print Assumptions C07_write_fault_newick.
+
+Theorem C07_write_ok_newick : forall o k t,
+  (length (Newick.marshal o t) <= k)%nat -> fst (write_to_newick o k t) = Ok tt.
+Proof. exact write_ok_newick. Qed.
+Print Assumptions C07_write_ok_newick.
+
+(* what reached the writer is the first k bytes of MarshalText, for all five *)
+Theorem C07_write_emitted :
+  (forall k r m, Fasta.marshal_text r = Ok m -> snd (write_to_fasta k r) = firstn k m)
+  /\ (forall k r m, Fastq.marshal_text r = Ok m -> snd (write_to_fastq k r) = firstn k m)
+  /\ (forall o k r m, Sam.marshal_text o r = Ok m -> snd (write_to_sam o k r) = firstn k m)
+  /\ (forall k b m, Bed.write b = Ok m -> snd (write_to_bed k b) = firstn k m)
+  /\ (forall o k t, snd (write_to_newick o k t) = firstn k (Newick.marshal o t)).
+Proof.
+  exact (conj write_emitted_fasta (conj write_emitted_fastq (conj write_emitted_sam
+        (conj write_emitted_bed write_emitted_newick)))).
+Qed.
+Print Assumptions C07_write_emitted.
+
+(* ---- non-vacuity ------------------------------------------------------------------- *)
+
+Definition C07_fa : list Fasta.fasta :=
+  [ {| Fasta.name := bs ">a b"; Fasta.seq := repeat 65 81 |};
+    {| Fasta.name := []; Fasta.seq := [] |};
+    {| Fasta.name := bs "x"; Fasta.seq := bs "TT" |} ].
+(* the file has 97 bytes; the first record ends at 89, the second at 91 *)
+Example C07_ex_fasta :
+  Forall FastaSpec.fa_ok C07_fa /\ length (fasta_file C07_fa) = 97%nat
+  /\ Fasta.decode (firstn 0 (fasta_file C07_fa)) TErr = [ErrItem]
+  /\ Fasta.decode (firstn 89 (fasta_file C07_fa)) TErr = [ErrItem]
+  /\ Fasta.decode (firstn 90 (fasta_file C07_fa)) TErr = map Rec (firstn 1 C07_fa) ++ [ErrItem]
+  /\ Fasta.decode (firstn 97 (fasta_file C07_fa)) TErr = map Rec (firstn 2 C07_fa) ++ [ErrItem]
+  /\ Fasta.decode (fasta_file C07_fa) TEOF = map Rec C07_fa.
+Proof. split; [repeat constructor|]. vm_compute. repeat split. Qed.
+
+Definition C07_fq : list Fastq.fastq :=
+  [ {| Fastq.name := bs "@r 1"; Fastq.seq := bs "+A"; Fastq.quals := bs "@I" |};
+    {| Fastq.name := []; Fastq.seq := []; Fastq.quals := [] |} ].
+(* 14 + 6 bytes: a cut inside the qualities (12), right before the record's last
+   LF (13), after it (14), and right before the file's last LF (19: the empty
+   qualities line of the second record is not a token) *)
+Example C07_ex_fastq :
+  Forall FastqSpec.fq_ok C07_fq /\ length (fastq_file C07_fq) = 20%nat
+  /\ Fastq.decode (firstn 12 (fastq_file C07_fq)) TErr = [ErrItem]
+  /\ Fastq.decode (firstn 13 (fastq_file C07_fq)) TErr = map Rec (firstn 1 C07_fq) ++ [ErrItem]
+  /\ Fastq.decode (firstn 14 (fastq_file C07_fq)) TErr = map Rec (firstn 1 C07_fq) ++ [ErrItem]
+  /\ Fastq.decode (firstn 19 (fastq_file C07_fq)) TErr = map Rec (firstn 1 C07_fq) ++ [ErrItem]
+  /\ Fastq.decode (firstn 20 (fastq_file C07_fq)) TErr = map Rec C07_fq ++ [ErrItem].
+Proof. split; [repeat constructor|]. vm_compute. repeat split. Qed.
+
+Definition C07_sam_o : foracle := {| f_parse := []; f_fmt := [] |}.
+Definition C07_sam_r : Sam.sam :=
+  {| Sam.s_qname := bs """q"; Sam.s_flag := 4; Sam.s_rname := bs "*"; Sam.s_pos := 0; Sam.s_mapq := 0;
+     Sam.s_cigar := bs "*"; Sam.s_rnext := bs "*"; Sam.s_pnext := 0; Sam.s_tlen := 0;
+     Sam.s_seq := bs "AC"; Sam.s_qual := bs "!!"; Sam.s_tags := [(bs "XX", Sam.TI 7)] |}.
+Definition C07_sam_h : bytes := 64 :: bs "HD" ++ TAB :: bs "VN:1.6".
+(* header 10 + LF, record 31 + LF: a cut inside the record's tag yields no
+   record built from the truncated line *)
+Example C07_ex_sam :
+  Forall SamSpec.header_ok [C07_sam_h] /\ Forall (SamSpec.sam_ok C07_sam_o) [C07_sam_r]
+  /\ length (sam_file C07_sam_o [C07_sam_h] [C07_sam_r]) = 43%nat
+  /\ Sam.reader_header C07_sam_o (firstn 10 (sam_file C07_sam_o [C07_sam_h] [C07_sam_r])) TErr = [ErrItem]
+  /\ Sam.reader_header C07_sam_o (firstn 41 (sam_file C07_sam_o [C07_sam_h] [C07_sam_r])) TErr
+     = [Rec (Sam.Hdr C07_sam_h); ErrItem]
+  /\ Sam.reader_header C07_sam_o (firstn 42 (sam_file C07_sam_o [C07_sam_h] [C07_sam_r])) TErr
+     = [Rec (Sam.Hdr C07_sam_h); ErrItem]
+  /\ Sam.reader_header C07_sam_o (firstn 43 (sam_file C07_sam_o [C07_sam_h] [C07_sam_r])) TErr
+     = [Rec (Sam.Hdr C07_sam_h); Rec (Sam.Aln C07_sam_r); ErrItem]
+  /\ Sam.reader C07_sam_o (firstn 43 (sam_file C07_sam_o [C07_sam_h] [C07_sam_r])) TErr
+     = [Rec C07_sam_r; ErrItem].
+Proof.
+  split.
+  { constructor; [|constructor]. split; [eexists; reflexivity|]. split; [|reflexivity].
+    vm_compute. intuition discriminate. }
+  split.
+  { constructor; [|constructor]. SamSpec.sam_ok_example. }
+  vm_compute. repeat split.
+Qed.
+
+Definition C07_bed1 : Bed.bed :=
+  {| Bed.b_n := 4; Bed.b_chrom := bs "c"; Bed.b_start := 1%Z; Bed.b_end := 22%Z;
+     Bed.b_name := bs "n#"; Bed.b_score := 0%Z; Bed.b_strand := [];
+     Bed.b_thick_start := 0%Z; Bed.b_thick_end := 0%Z; Bed.b_rgb := (0, 0, 0);
+     Bed.b_block_count := 0%Z; Bed.b_block_sizes := []; Bed.b_block_starts := [] |}.
+(* "c TAB 1 TAB 22 TAB n# LF" twice: a cut inside the second line's end
+   coordinate ("2" instead of "22") does not yield a record *)
+Example C07_ex_bed :
+  exists w, bed_file [C07_bed1; C07_bed1] = Ok w /\ length w = 20%nat
+    /\ Bed.decode (firstn 9 w) TErr = [ErrItem]
+    /\ Bed.decode (firstn 10 w) TErr = [Rec C07_bed1; ErrItem]
+    /\ Bed.decode (firstn 15 w) TErr = [Rec C07_bed1; ErrItem]
+    /\ Bed.decode (firstn 19 w) TErr = [Rec C07_bed1; ErrItem]
+    /\ Bed.decode (firstn 20 w) TErr = [Rec C07_bed1; Rec C07_bed1; ErrItem]
+    /\ Bed.decode (firstn 15 w) TEOF = [Rec C07_bed1; ErrItem].
+Proof. eexists. split; [vm_compute; reflexivity|]. vm_compute. repeat split. Qed.
+
+Definition C07_nw_o : foracle :=
+  {| f_parse := [(bs "1.5", bs "1.5")]; f_fmt := [(bs "1.5", bs "1.5")] |}.
+Definition C07_nw_t : Newick.tree :=
+  Newick.Node (bs "r") (bs "0") [Newick.Node [120; 10; 121] (bs "1.5") []; Newick.Node [] (bs "0") []].
+(* "('x LF y':1.5,)r;" LF, twice (14 + 1 bytes each); a cut inside the distance
+   "1.5" (after "1.") does not yield a tree with distance 1 *)
+Example C07_ex_newick :
+  Forall (NewickSpec.floats_ok C07_nw_o) [C07_nw_t; C07_nw_t]
+  /\ length (newick_file C07_nw_o [C07_nw_t; C07_nw_t]) = 30%nat
+  /\ Newick.decode C07_nw_o (firstn 9 (newick_file C07_nw_o [C07_nw_t; C07_nw_t])) TErr = Ok [ErrItem]
+  /\ Newick.decode C07_nw_o (firstn 13 (newick_file C07_nw_o [C07_nw_t; C07_nw_t])) TErr = Ok [ErrItem]
+  /\ Newick.decode C07_nw_o (firstn 14 (newick_file C07_nw_o [C07_nw_t; C07_nw_t])) TErr
+     = Ok [Rec C07_nw_t; ErrItem]
+  /\ Newick.decode C07_nw_o (firstn 29 (newick_file C07_nw_o [C07_nw_t; C07_nw_t])) TErr
+     = Ok [Rec C07_nw_t; Rec C07_nw_t; ErrItem].
+Proof.
+  assert (F : NewickSpec.floats_ok C07_nw_o C07_nw_t).
+  { unfold NewickSpec.floats_ok. vm_compute NewickSpec.dists.
+    repeat (apply Forall_cons;
+            [ let H := fresh "H" in intros H;
+              first [ vm_compute in H; discriminate H
+                    | clear H; vm_compute; repeat constructor; discriminate ] | ]);
+    apply Forall_nil. }
+  split; [repeat (apply Forall_cons; [exact F|]); apply Forall_nil|]. vm_compute. repeat split.
+Qed.
+
+(* writers: FASTA makes one call per line; a limit of 5 bytes stops inside the
+   first call, 8 inside the second; BED refuses N = 2 before writing anything *)
+Example C07_ex_write :
+  let r := {| Fasta.name := bs "name"; Fasta.seq := bs "ACGT" |} in
+  Fasta.marshal_text r = Ok (bs ">name" ++ [LF] ++ bs "ACGT" ++ [LF])
+  /\ write_to_fasta 5 r = (Err, bs ">name")
+  /\ write_to_fasta 8 r = (Err, bs ">name" ++ [LF] ++ bs "AC")
+  /\ write_to_fasta 10 r = (Err, bs ">name" ++ [LF] ++ bs "ACGT")
+  /\ write_to_fasta 11 r = (Ok tt, bs ">name" ++ [LF] ++ bs "ACGT" ++ [LF])
+  /\ write_to_bed 3 C07_bed1 = (Err, bs "c" ++ [TAB] ++ bs "1")
+  /\ write_to_bed 100 (Bed.mkBed 2 (bs "c") 1 2 [] 0 [] 0 0 (0, 0, 0) 0 [] []) = (Err, [])
+  /\ write_to_newick C07_nw_o 3 C07_nw_t = (Err, bs "('x")
+  /\ fst (write_to_fastq 0 {| Fastq.name := []; Fastq.seq := []; Fastq.quals := [] |}) = Err.
+Proof. vm_compute. repeat split. Qed.
